@@ -263,12 +263,50 @@ def unmarshal_g_contract(which=None):
         m, values, cond = method_parse(c.st, pl)
         return (mk_int(I(size) + 8), ch, method_obj(m, values))
 
+    from contracts import header_c
+
+    def hview(c):
+        """a complete content-header frame whose payload is a grammar-valid header"""
+        st, d = c.st, c.data_in
+        h = wire.peek(st, d, 7)
+        if h is None:
+            return None
+        amqp = wire.atoms_eq(h[:4], b'AMQP')
+        if st.branch(B(amqp) if not isinstance(amqp, bool) else amqp, 'spec:amqp'):
+            return None
+        ftype, ch, size = wire.uint(h[0:1]), wire.uint(h[1:3]), wire.uint(h[3:7])
+        if not st.branch(B(conj(eq(ftype, 2), lt(0, size), le(I(size) + 8, wire.blen(st, d)))), 'spec:complete-header-frame'):
+            return None
+        end = wire.byte_at(st, d, mk_int(I(size) + 7))
+        e = eq(end, wire.FRAME_END)
+        if not st.branch(B(e) if not isinstance(e, bool) else e, 'spec:frame-end'):
+            return None
+        # the payload starts at octet 7; the header may not extend beyond `size` octets (what follows it inside the
+        # payload is ignored by the grammar clause; the frame-end octet was located from `size` above)
+        pl = wire.sub(st, d, 7, None)
+        hv = header_c.header_view(c, pl)
+        if hv is None or not st.must(I(hv[0]['consumed']) <= I(size)):
+            return None
+        return ch, size, pl
+
+    def hgood(c):
+        return hview(c) is not None
+
+    def hout(c):
+        ch, size, pl = hview(c)
+        return (mk_int(I(size) + 8), ch, header_c.expected_header(c, pl))
+
     cases = []
     for k in base_c.cases:
         if k.name == 'method':
             cases.append(Case('method-frame', when=good, returns=out))
             old = k.when
             cases.append(Case('method', when=(lambda old: lambda c: conj(old(c), neg(good(c))))(old), post=k.post,
+                              havoc=k.havoc, may_raise=k.may_raise))
+        elif k.name == 'content-header':
+            cases.append(Case('content-header-frame', when=hgood, returns=hout))
+            old = k.when
+            cases.append(Case('content-header', when=(lambda old: lambda c: conj(old(c), not hgood(c)))(old), post=k.post,
                               havoc=k.havoc, may_raise=k.may_raise))
         else:
             cases.append(k)
@@ -282,12 +320,29 @@ def unmarshal_g_contract(which=None):
             return SBytes([1] + ch + sz + list(m.index.to_bytes(4, 'big')) + [args, wire.FRAME_END, st.new_chunk('rest')])
         return (m.name, mk)
 
+    def hinst(label, mk):
+        def build(st, name):
+            payload = mk(st)
+            ch = [st.new_byte('ch') for _ in range(2)]
+            sz = [st.new_byte('size') for _ in range(4)]
+            st.assume(I(wire.uint(sz)) == st.rope_len_term(SBytes(payload)))
+            return SBytes([2] + ch + sz + payload + [wire.FRAME_END, st.new_chunk('rest')])
+        return ('content-header[%s]' % label, build)
+
     if which is None:
         extra = dict(name=FRM + 'unmarshal(g)', trusted=True)
+        insts = [inst(m) for m in tables.METHODS]
+        check = {'method-frame', 'content-header-frame'}
+    elif which == 'header':
+        extra = dict(name=FRM + 'unmarshal(g)[ContentHeader]', selector=lambda fn, args: False)
+        insts = [hinst(l, mk) for l, mk in header_c.payload_makers()]
+        check = {'content-header-frame'}
     else:
         extra = dict(name=FRM + 'unmarshal(g)[%s]' % which.name, selector=lambda fn, args: False)
-    return Contract(FRM + 'unmarshal', [('data_in', TSpec([inst(m) for m in tables.METHODS if which in (None, m)]))],
-                    cases=cases, view='g', check_cases={'method-frame'}, bounded=False, complete=True, **extra,
+        insts = [inst(which)]
+        check = {'method-frame'}
+    return Contract(FRM + 'unmarshal', [('data_in', TSpec(insts))],
+                    cases=cases, view='g', check_cases=check, bounded=False, complete=True, **extra,
                     doc='C05/C01: a complete method frame decodes to the class named by its id with the grammar values')
 
 
@@ -346,6 +401,7 @@ def register(reg):
         reg.add(unmarshal_method_frame_contract(m))
         reg.add(unmarshal_g_contract(m))
     reg.add(unmarshal_method_frame_contract('other'))
+    reg.add(unmarshal_g_contract('header'))
 
 
 def names(kind):
